@@ -180,9 +180,10 @@ def run_check(mod, tier, seed, workers=None):
     t0 = time.time()
     n = workers or int(os.environ.get('VERIF_WORKERS', '0')) or min(16, os.cpu_count() or 1)
     rot = seed % n
-    ctxm = mp.get_context('fork')
-    with ctxm.Pool(n) as pool:
-        parts = pool.map(_worker, [(mod.__name__, tier, s, n, rot) for s in range(n)], chunksize=1)
+    # forked, non-daemonic workers (C18 starts real process pools from inside a worker)
+    from concurrent.futures import ProcessPoolExecutor
+    with ProcessPoolExecutor(max_workers=n, mp_context=mp.get_context('fork')) as pool:
+        parts = list(pool.map(_worker, [(mod.__name__, tier, s, n, rot) for s in range(n)]))
     states, nontriv, outcomes = set(), set(), {}
     transitions = evaluations = vcount = 0
     violations, samples, extra = [], [], {}
